@@ -165,6 +165,24 @@ def vmfTerms (c : SphCfg) (norm kappa : Rat) (xi given : List Rat) : List Term :
       [Term.vmf norm kappa m.1 m.2 x.1 x.2]
   | _, _ => []
 
+/-- `IsotropicSolidAngle._new_point` for the two uniforms `(u₁, u₂) = random(size=2)`:
+    `phi = u₁·2π`, and the argument of `numpy.log` in the inverse CDF,
+    `exp(κ) − κ·u₂/(2π·norm)` (`expk` is the library's `numpy.exp(kappa)`);
+    then `theta = arccos(log(arg)/κ)`. -/
+def vmfNewPoint (kappa norm expk twopi u1 u2 : Rat) : Rat × Rat :=
+  (u1 * twopi, expk - kappa * u2 / (twopi * norm))
+
+/-- `_rotmat`'s azimuth `gamma`: `arccos` lies in `[0, π]`; mirrored when `mu[1] < 0`. -/
+def vmfGamma (mu1 acosv twopi : Rat) : Rat := if mu1 < 0 then twopi - acosv else acosv
+
+/-- `_rotmat(mu)` applied to a vector, for `cb, sb, cg, sg = cos β, sin β, cos γ, sin γ`. -/
+def rot (cb sb cg sg : Rat) (v : Rat × Rat × Rat) : Rat × Rat × Rat :=
+  (cb * cg * v.1 - sg * v.2.1 + sb * cg * v.2.2,
+   cb * sg * v.1 + cg * v.2.1 + sb * sg * v.2.2,
+   -sb * v.1 + cb * v.2.2)
+
+def dot3 (v w : Rat × Rat × Rat) : Rat := v.1 * w.1 + v.2.1 * w.2.1 + v.2.2 * w.2.2
+
 /-! ## Births: `logpdf(xi)` -/
 
 /-- `UniformBirth.logpdf`: `stats.uniform.logpdf(x, loc=lower, scale=abs(upper - lower))`. -/
